@@ -77,15 +77,26 @@ structure Script where
   graceful : Bool
   age : Bool
   steps : List Step
+  /-- loopback TCP through `serve_with_shutdown(addr, signal)` / `serve(addr)`: connections are
+  observed from their client ends, the open count at resolution is not observable -/
+  tcp : Bool := false
 
 def parseScript (case : List String) : Option Script :=
   match case with
   | tag :: m :: _b :: _p :: a :: rest =>
     if !tag.startsWith "sc" then none else
-    let g := match m with | "g" => some true | "n" => some false | _ => none
+    let g := match m with
+      | "g" => some (true, false) | "n" => some (false, false)
+      | "t" => some (true, true) | "u" => some (false, true)
+      | _ => none
     let ag := match a with | "a0" => some false | "a1" => some true | _ => none
     match g, ag, rest.mapM parseStep with
-    | some g, some ag, some steps => some { graceful := g, age := ag, steps := steps }
+    | some (g, tcp), some ag, some steps =>
+      -- a TcpIncoming cannot be ended or made to fail from outside, and the TCP variant has no
+      -- non-quiescent steps
+      if tcp && steps.any (fun st => !st.settled || (match st.op with
+          | .endInc | .accErr => true | _ => false)) then none
+      else some { graceful := g, age := ag, steps := steps, tcp := tcp }
     | _, _, _ => none
   | _ => none
 
@@ -314,9 +325,9 @@ def showIdx : Option Nat → String
   | some n => toString n
   | none => "-"
 
-def render (m : Sim) : String :=
+def render (m : Sim) (tcp : Bool := false) : String :=
   let r := match m.resolvedAt with
-    | some t => if m.st.cfgGraceful then s!"R{t}:{m.st.openAtResolve}:ok" else s!"R{t}:*:ok"
+    | some t => if m.st.cfgGraceful && !tcp then s!"R{t}:{m.st.openAtResolve}:ok" else s!"R{t}:*:ok"
     | none => "R-:-:-"
   let cs := (m.st.conns.zipIdx).map fun (cn, i) =>
     s!"c{i}:{if cn.accepted then 1 else 0}:{showIdx (m.closedAt.getD i none)}"
@@ -468,6 +479,6 @@ def handle (case obs : List String) : String × String :=
       let startW := if racy then o.calls.map (·.started) else []
       -- the repaired accept loop (`biased;`): fixes/fix-C13-biased-accept-select.patch
       let m := simulate sc true accW startW
-      (render m, verdictOf sc o)
+      (render m sc.tcp, verdictOf sc o)
 
 end DriverC13
